@@ -83,7 +83,7 @@ func NewLedger(seed int64, traceNo int, profile string, t *world.Tracer) (*Ledge
 	if profile == "single" {
 		n = 1
 	}
-	cfg := world.Config{NShards: n, WithMeta: true, Gas: world.StdGas(traceNo), EnableChange: traceNo%2 == 0, Activation: 0}
+	cfg := world.Config{NShards: n, WithMeta: true, Gas: world.StdGas(traceNo), EnableChange: traceNo%2 == 0, Activation: []uint32{0, 0, 2}[traceNo%3]}
 	addrs := world.StdAddrs(n)
 	w, err := world.New(cfg, addrs)
 	if err != nil {
@@ -705,7 +705,31 @@ func (d *Ledger) destFor(from string) []byte {
 	return d.W.Addr(d.otherAcct(from))
 }
 
+// boundaryMerge looks for a sender and a same-shard destination that both hold the same NFT such that one more unit at the destination
+// makes its amount one byte longer (255 -> 256, 65535 -> 65536): the payload that is copied (and charged) grows by a byte.
+func (d *Ledger) boundaryMerge() (from, to string, tok []byte, nonce uint64, ok bool) {
+	hs := d.nftHoldings()
+	for _, a := range hs {
+		for _, b := range hs {
+			if a.acct == b.acct || !bytes.Equal(a.key, b.key) {
+				continue
+			}
+			v := d.q(b.val)
+			if (v == 255 || v == 65535) && d.q(a.val) >= 1 {
+				return a.acct, b.acct, a.tok, a.nonce, true
+			}
+		}
+	}
+	return
+}
+
 func (d *Ledger) actNFTTransfer() {
+	if from, to, tok, nonce, ok := d.boundaryMerge(); ok && d.chance(50) {
+		c := d.call("ESDTNFTTransfer", from, from, tok, nb(nonce), d.amt(1), d.W.Addr(to))
+		c.RAE = false
+		d.record("exec", d.shardOfName(from), c)
+		return
+	}
 	hs := d.nftHoldings()
 	var from string
 	var tok []byte
@@ -925,8 +949,8 @@ func (d *Ledger) actCreate() {
 	if d.chance(50) {
 		qty = int64(d.R.Intn(5))
 	}
-	if d.chance(10) {
-		qty = []int64{255, 256, 257, 65535}[d.R.Intn(4)]
+	if d.chance(10) || (d.Profile == "gas" && d.chance(25)) {
+		qty = []int64{255, 256, 257, 300, 65535}[d.R.Intn(5)]
 	}
 	roy := []uint64{0, 10000, 10001, 2500, 1<<32 + 1, 7}[d.R.Intn(6)]
 	args := [][]byte{tok, d.amt(qty), metaNames[d.R.Intn(3)], nb(roy), metaHashes[d.R.Intn(4)], metaAttrs[d.R.Intn(4)]}
@@ -1172,7 +1196,7 @@ func (d *Ledger) actRogue() {
 		tok = d.pickTok(d.NFT)
 	}
 	var c *world.Call
-	switch d.R.Intn(8) {
+	switch d.R.Intn(10) {
 	case 0:
 		c = d.call("ESDTNFTCreateRoleTransfer", caller, target, tok, nb(uint64(d.R.Intn(3))))
 	case 1:
@@ -1188,8 +1212,30 @@ func (d *Ledger) actRogue() {
 	case 6:
 		c = d.call("ESDTTransfer", caller, target, tok, d.amt(1)) // nothing privileged: a transfer of a token the caller may not hold
 		c.CT = vmcommon.CallType(d.R.Intn(4))
-	default:
+	case 7:
 		c = d.call("SetUserName", caller, d.pick(d.Users), []byte("rogue"))
+	default:
+		// a self-made payload handed to the destination-side form of the NFT transfer functions (nobody is debited)
+		ntok := d.pickTok(d.NFT)
+		e := &esdt.ESDigitalToken{Type: 1, Value: new(big.Int).Mul(big.NewInt(5), d.Scale), TokenMetaData: &esdt.MetaData{Nonce: 1, Name: []byte("fake"), Hash: metaHashes[d.R.Intn(4)], URIs: [][]byte{[]byte("u")}}}
+		for _, h := range d.nftHoldings() {
+			if d.chance(50) {
+				if acc := d.W.Shards[d.shardOfName(h.acct)].Peek(d.W.Addr(h.acct)); acc != nil {
+					if ee, ok := world.DecodeEntry(acc.Storage["ELRONDesdt"+string(h.key)]); ok && ee.TokenMetaData != nil {
+						ee.Value = new(big.Int).Mul(big.NewInt(5), d.Scale)
+						e, ntok = ee, h.tok
+						break
+					}
+				}
+			}
+		}
+		pb, _ := e.Marshal()
+		if d.chance(50) {
+			c = d.call("ESDTNFTTransfer", caller, target, ntok, nb(e.TokenMetaData.Nonce), d.amt(5), pb)
+		} else {
+			c = d.call("MultiESDTNFTTransfer", caller, target, nb(1), ntok, nb(e.TokenMetaData.Nonce), pb)
+		}
+		c.CT = vmcommon.CallType(d.R.Intn(4))
 	}
 	d.record("exec", d.shardOfName(caller), c)
 }
@@ -1214,10 +1260,16 @@ func (d *Ledger) actForged() {
 		return // single-shard world and an ordinary recipient: there is no "other shard"
 	}
 	args := [][]byte{d.pickTok(d.Fung), d.amt(int64(1 + d.R.Intn(3)))}
-	if d.chance(25) {
+	ct := vmcommon.CallType(d.R.Intn(4))
+	if d.W.Info(rcpt).Kind == "sc" && d.chance(60) {
+		args = append(args, []byte("fn1"), []byte{1})
+		if d.chance(50) {
+			ct = vmcommon.AsynchronousCallBack
+		}
+	} else if d.chance(20) {
 		args = append(args, []byte("fn1"), []byte{1})
 	}
-	c := &world.Call{Fn: "ESDTTransfer", Caller: d.W.Addr(caller), Rcpt: d.W.Addr(rcpt), Args: args, Gas: d.gas(), Value: big.NewInt(0), CT: vmcommon.CallType(d.R.Intn(4))}
+	c := &world.Call{Fn: "ESDTTransfer", Caller: d.W.Addr(caller), Rcpt: d.W.Addr(rcpt), Args: args, Gas: d.gas(), Value: big.NewInt(0), CT: ct}
 	d.record("exec", home, c)
 }
 
@@ -1315,6 +1367,7 @@ func DefaultWeights(profile string) map[string]int {
 	case "transfer":
 		w["transfer"], w["nft"], w["multi"], w["deliver"] = 20, 20, 20, 25
 	case "supply":
+		w["rogue"] = 8
 		w["mintburn"], w["create"], w["nftrole"], w["esdtburn"], w["freeze"] = 20, 12, 16, 8, 10
 	case "roles":
 		w["rogue"], w["kv"] = 12, 8
@@ -1330,7 +1383,7 @@ func DefaultWeights(profile string) map[string]int {
 	case "meta":
 		w["create"], w["nft"], w["multi"], w["nftrole"], w["deliver"] = 10, 22, 18, 14, 22
 	case "gas":
-		w["forged"] = 8
+		w["forged"], w["epoch"] = 8, 3
 		w["sched"], w["kv"], w["create"], w["nftrole"], w["nft"], w["multi"], w["acct"], w["transfer"] = 6, 10, 12, 12, 18, 20, 8, 16
 	case "payable":
 		w["forged"] = 8
